@@ -52,10 +52,13 @@ def main():
     ap.add_argument("--replay", default=None)
     ap.add_argument("--keep-scratch", action="store_true")
     ap.add_argument("--list", action="store_true")
-    ap.add_argument("--jobs", type=int, default=int(os.environ.get("VERIF_JOBS", "16")))
+    ap.add_argument("--jobs", type=int, default=int(os.environ.get("VERIF_JOBS", "0")))
     ap.add_argument("--no-evidence", action="store_true")
     ap.add_argument("--harness-timeout", type=int, default=0)
     args = ap.parse_args()
+    if not args.jobs:
+        # the thorough tier's harnesses are memory hungry (several GB each): fewer in parallel
+        args.jobs = 16 if args.tier == "quick" else 6
     seed = int(os.environ.get("VERIF_SEED", "0") or 0)   # no random choices are made anywhere; recorded only
 
     units = registry.load()
